@@ -535,6 +535,12 @@ def run_one(case):
     runlib.build_namespace = build_ns_b if fam == 'B' else build_ns_a
     try:
         obs = runlib.run_impl(case, keep_raw=True)
+        if obs['err'] and obs['err'].startswith('crash:') and not obs['trace']:
+            # as runlib.run_checked: a deterministic crash of doit before the first event reproduces (and is reported);
+            # a transient failure of the environment (harness source rewritten while inspect reads it, EMFILE) does not
+            again = runlib.run_impl(case, keep_raw=True)
+            if again['err'] != obs['err']:
+                obs = again
     finally:
         runlib.build_namespace = _ORIG_BUILD
     return obs
@@ -1089,7 +1095,7 @@ def eval_batch(batch):
         c = copy.deepcopy(c)
         vs = [variant(c, v['runner'], v['nproc'], v.get('policy'), v.get('schedule')) for v in c.pop('variants')]
         explore = c.pop('explore', None)
-        st.count('corpus_case')
+        st.count('small_scope_case' if c.pop('small_scope', False) else 'corpus_case')
         if explore:
             # every completion order of the thread runner with `explore` workers
             got = []
@@ -1180,6 +1186,40 @@ def fork_map(func, items, procs=4):
     return results
 
 
+def exhaustive_cases(ctx):
+    """small scope, exhaustively: every DAG on <= 3 tasks over task_dep / setup edges x every assignment of
+    ok / failed / (quick: no more) error to the tasks, --continue, 2 worker threads, EVERY completion order
+    (runlib.enumerate_schedules, policy eager); each schedule is compared with the serial run (P) and with the
+    denotation (K2), and must be a trace of M1 (K1)"""
+    import itertools
+    quick = ctx.tier == 'quick'
+    dags = runlib.small_dags(3, ('task_dep', 'setup'))
+    outs = ['ok', 'failed'] if quick else ['ok', 'failed', 'error']
+    cases = []
+    for d in dags:
+        n = len(d['tasks'])
+        for combo in itertools.product(outs, repeat=n):
+            if all(o == 'ok' for o in combo) and n == 3 and quick:
+                continue
+            ts = copy.deepcopy(d['tasks'])
+            for t, o in zip(ts, combo):
+                t['outcome'] = o
+                if o == 'error':
+                    t['how'] = 'raise'
+            cases.append({'fam': 'A', 'tasks': ts, 'sel': None, 'cont': True, 'always': False, 'runner': 'serial', 'nproc': 0,
+                          'explore': 2, 'variants': [], 'small_scope': True})
+    total = len(cases)
+    if quick and ctx.boost <= 1:
+        rng = ctx.sub_rng('small-scope')
+        small = [c for c in cases if len(c['tasks']) <= 2]
+        big = [c for c in cases if len(c['tasks']) == 3]
+        cases = small + rng.sample(big, min(30, len(big)))
+    ctx.extra['exhaustive_small_scope'] = {'max_tasks': 3, 'labels': ['task_dep', 'setup'], 'outcomes': outs, 'cont': True,
+                                           'workers': 2, 'schedules': 'every completion order under eager dispatch',
+                                           'cases_total': total, 'cases_run': len(cases)}
+    return cases
+
+
 def plan(ctx, scale=1.0):
     quick = ctx.tier == 'quick'
     rng = ctx.rng
@@ -1221,6 +1261,9 @@ def run(ctx, scale=1.0):
     cpool, cmain, cdata = corpus_batches()
     ctx.count('corpus', sum(len(b['cases']) for b in cpool + cmain + cdata))
     pool, main, data = plan(ctx, scale)
+    ex = exhaustive_cases(ctx)
+    esize = 8 if ctx.tier == 'quick' else 12
+    cpool = cpool + [{'cases': ex[i:i + esize], 'shrink_s': 5.0} for i in range(0, len(ex), esize)]
     deadline = time.time() + max(10.0, 0.75 * ctx.time_left())
     for b in pool + main:
         b['deadline'] = deadline
